@@ -663,6 +663,12 @@ pub fn run_op(ctx: &mut Ctx, op: &str) {
         ctx.record(op.to_string(), "bad-op".into(), false);
         return;
     };
+    run_case(ctx, &c);
+}
+
+/// Runs one case; returns the implementation's id array when it returned `Ok`.
+fn run_case(ctx: &mut Ctx, c: &Case) -> Option<Vec<usize>> {
+    let c = c.clone();
     let algo = c.algo();
     let base = format_op(&c);
     let in_contract = contract(&c);
@@ -772,6 +778,37 @@ pub fn run_op(ctx: &mut Ctx, op: &str) {
     if let Some((sig, what)) = verdict {
         ctx.fail(idx, &sig, what);
     }
+    match ran {
+        Ran::Ok(ids, _) => Some(ids),
+        _ => None,
+    }
+}
+
+fn with_ids(c: &Case, new_ids: Vec<usize>) -> Case {
+    let mut c = c.clone();
+    match &mut c {
+        Case::Vn { ids, .. }
+        | Case::Kl { ids, .. }
+        | Case::Fm { ids, .. }
+        | Case::ArcSwap { ids, .. }
+        | Case::KMeans { ids, .. } => *ids = new_ids,
+    }
+    c
+}
+
+/// Runs a generated case and, one time in four, runs the algorithm again on its own output
+/// (a locally optimal input) when that output is still inside the contract.
+fn run_gen(ctx: &mut Ctx, c: Case) {
+    let out = run_case(ctx, &c);
+    if ctx.rng.chance(1, 4) {
+        if let Some(ids) = out {
+            let c2 = with_ids(&c, ids);
+            if contract(&c2).is_ok() {
+                ctx.count(&format!("stream:rerun-on-own-output:{}", c2.algo()));
+                run_case(ctx, &c2);
+            }
+        }
+    }
 }
 
 // ------------------------------------------------------------------ generator
@@ -794,6 +831,8 @@ fn rows_of(n: usize, edges: &Edges) -> Rows {
 
 /// A symmetric loop-free graph on exactly `n` vertices with positive integer edge weights.
 fn gen_graph(ctx: &mut Ctx, n: usize) -> (Rows, &'static str) {
+    // expected degree stays below ~12 on large inputs (debug build, instrumented atomics)
+    let cap = |den: u64| -> u64 { if n > 60 { den.min(1200 / n as u64) } else { den } };
     let wmode = ctx.rng.usize(3);
     let ew = |rng: &mut Rng| match wmode {
         0 => 1,
@@ -803,7 +842,7 @@ fn gen_graph(ctx: &mut Ctx, n: usize) -> (Rows, &'static str) {
     let mut edges: Edges = vec![];
     let shape = match ctx.rng.usize(8) {
         0 | 1 => {
-            let den = *ctx.rng.pick(&[15u64, 30, 60]);
+            let den = cap(*ctx.rng.pick(&[15u64, 30, 60]));
             for u in 0..n {
                 for v in 0..u {
                     if ctx.rng.chance(den, 100) {
@@ -830,7 +869,7 @@ fn gen_graph(ctx: &mut Ctx, n: usize) -> (Rows, &'static str) {
             let n1 = 1 + ctx.rng.usize(n - 1);
             for u in 0..n {
                 for v in 0..u {
-                    if (u < n1) == (v < n1) && ctx.rng.chance(50, 100) {
+                    if (u < n1) == (v < n1) && ctx.rng.chance(cap(50), 100) {
                         edges.push((u, v, ew(&mut ctx.rng)));
                     }
                 }
@@ -841,7 +880,7 @@ fn gen_graph(ctx: &mut Ctx, n: usize) -> (Rows, &'static str) {
             let live: Vec<bool> = (0..n).map(|_| ctx.rng.chance(60, 100)).collect();
             for u in 0..n {
                 for v in 0..u {
-                    if live[u] && live[v] && ctx.rng.chance(40, 100) {
+                    if live[u] && live[v] && ctx.rng.chance(cap(40), 100) {
                         edges.push((u, v, ew(&mut ctx.rng)));
                     }
                 }
@@ -1014,7 +1053,7 @@ fn gen_fm(ctx: &mut Ctx) -> Case {
 fn gen_arcswap(ctx: &mut Ctx, large: bool) -> Case {
     let k = 2 + ctx.rng.usize(7);
     let span = if ctx.rng.chance(1, 4) { 2 } else { 40 };
-    let n = if large { 150 + ctx.rng.usize(350) } else { k + ctx.rng.usize(span) };
+    let n = if large { 100 + ctx.rng.usize(200) } else { k + ctx.rng.usize(span) };
     let (ids, im) = gen_valid_ids(ctx, n, k);
     let (rows, shape) = gen_graph(ctx, n);
     let (ws, wm) = gen_weights(ctx, n);
@@ -1222,20 +1261,20 @@ pub fn generate(ctx: &mut Ctx) {
         ctx.budget(5, 6)
     ));
     // (2) random, valid inputs, all six ------------------------------------------------------
-    let per = ctx.budget(1000, 10000);
+    let per = ctx.budget(2500, 20000);
     for _ in 0..per {
         let c = gen_vn(ctx, true);
-        run_op(ctx, &format_op(&c));
+        run_gen(ctx, c);
         let c = gen_vn(ctx, false);
-        run_op(ctx, &format_op(&c));
+        run_gen(ctx, c);
         let c = gen_kl(ctx);
-        run_op(ctx, &format_op(&c));
+        run_gen(ctx, c);
         let c = gen_fm(ctx);
-        run_op(ctx, &format_op(&c));
+        run_gen(ctx, c);
         let c = gen_arcswap(ctx, false);
-        run_op(ctx, &format_op(&c));
+        run_gen(ctx, c);
         let c = gen_kmeans(ctx, false);
-        run_op(ctx, &format_op(&c));
+        run_gen(ctx, c);
     }
     // (2b) larger inputs for the two parallel algorithms (real concurrency in ArcSwap, many sweeps
     //      and emptied clusters in KMeans)
